@@ -24,6 +24,7 @@ type variant struct {
 	Replace string `json:"replace"`
 	Note    string `json:"note"`
 	Benign  bool   `json:"benign"`
+	Patch   string `json:"patch"` // alternative to file/pattern: a unified diff under /verif (independently seeded change)
 }
 
 func loadVariants(verif, prop string) ([]variant, error) {
@@ -35,7 +36,32 @@ func loadVariants(verif, prop string) ([]variant, error) {
 		return nil, err
 	}
 	var vs []variant
-	return vs, json.Unmarshal(b, &vs)
+	if err := json.Unmarshal(b, &vs); err != nil {
+		return nil, err
+	}
+	// independently seeded changes that this property's check is recorded to detect
+	seeds, _ := filepath.Glob(filepath.Join(verif, "seeded", "C*", "meta.json"))
+	sort.Strings(seeds)
+	for _, mp := range seeds {
+		mb, err := os.ReadFile(mp)
+		if err != nil {
+			continue
+		}
+		var meta struct {
+			DetectedBy []string `json:"detected_by"`
+			Clause     string   `json:"clause_broken"`
+		}
+		if json.Unmarshal(mb, &meta) != nil {
+			continue
+		}
+		for _, d := range meta.DetectedBy {
+			if d == prop {
+				dir := filepath.Dir(mp)
+				vs = append(vs, variant{File: "seeded/" + filepath.Base(dir) + "/patch.diff", Patch: filepath.Join(dir, "patch.diff"), Note: "independently seeded change " + filepath.Base(dir)})
+			}
+		}
+	}
+	return vs, nil
 }
 
 // runVariant (child process): apply one scripted edit in memory, re-load, run the checker and
@@ -47,26 +73,37 @@ func runVariant(repo, verif, prop string, idx int) {
 		return
 	}
 	v := vs[idx]
-	path := filepath.Join(repo, v.File)
-	src, err := os.ReadFile(path)
-	if err != nil {
-		fmt.Println("VARIANT", idx, "STALE cannot read", v.File)
-		return
+	var overlay map[string][]byte
+	if v.Patch != "" {
+		ov, err := applyUnifiedDiff(repo, v.Patch)
+		if err != nil {
+			fmt.Println("VARIANT", idx, "STALE", firstLine(err.Error()))
+			return
+		}
+		overlay = ov
+	} else {
+		path := filepath.Join(repo, v.File)
+		src, err := os.ReadFile(path)
+		if err != nil {
+			fmt.Println("VARIANT", idx, "STALE cannot read", v.File)
+			return
+		}
+		re, err := regexp.Compile(v.Pattern)
+		if err != nil {
+			fmt.Println("VARIANT", idx, "ERROR bad pattern:", err)
+			return
+		}
+		loc := re.FindSubmatchIndex(src)
+		if loc == nil {
+			fmt.Println("VARIANT", idx, "STALE pattern does not match", v.File)
+			return
+		}
+		var dst []byte
+		dst = re.Expand(dst, []byte(v.Replace), src, loc)
+		out := append(append(append([]byte{}, src[:loc[0]]...), dst...), src[loc[1]:]...)
+		overlay = map[string][]byte{path: out}
 	}
-	re, err := regexp.Compile(v.Pattern)
-	if err != nil {
-		fmt.Println("VARIANT", idx, "ERROR bad pattern:", err)
-		return
-	}
-	loc := re.FindSubmatchIndex(src)
-	if loc == nil {
-		fmt.Println("VARIANT", idx, "STALE pattern does not match", v.File)
-		return
-	}
-	var dst []byte
-	dst = re.Expand(dst, []byte(v.Replace), src, loc)
-	out := append(append(append([]byte{}, src[:loc[0]]...), dst...), src[loc[1]:]...)
-	p, err := load.Load(load.Options{Repo: repo, VerifDir: verif, Overlay: map[string][]byte{path: out}, HarnessDir: "harness-selftest", Reuse: true})
+	p, err := load.Load(load.Options{Repo: repo, VerifDir: verif, Overlay: overlay, HarnessDir: "harness-selftest", Reuse: true})
 	if err != nil {
 		fmt.Println("VARIANT", idx, "NOCOMPILE", firstLine(err.Error()))
 		return
